@@ -746,5 +746,9 @@ PROPS["C08"]["rules"] = PROPS["C08"]["rules"] + [rules_handles.rule_one_count_pe
 PROPS["C08"]["explanation"] += " (IDCOUNT) every id Vattach/VSattach registers comes with a raised attach count. (REUSEOLD) Vdetach releases the old Vgroup element depending on flag tests only, never on lengths."
 PROPS["C13"]["rules"] = PROPS["C13"]["rules"] + [rules_handles.rule_one_count_per_id]
 
+PROPS["C09"]["rules"] = PROPS["C09"]["rules"] + [rules_gr.rule_gr_access_matches_direction]
+PROPS["C09"]["explanation"] += " (GRPERM) GR routines that only read ask for read access; writers obtain write access unconditionally or after testing the open element's permission."
+PROPS["C14"]["rules"] = PROPS["C14"]["rules"] + [rules_gr.rule_gr_access_matches_direction]
+
 NOT_APPLICABLE = {}
 
